@@ -13,7 +13,7 @@ from spyne import Application, Service, rpc, ComplexModel, EventManager
 from spyne.model.primitive import Integer, Unicode
 from spyne.model.complex import Iterable, Array
 from spyne.model.fault import Fault
-from spyne.protocol.json import JsonDocument
+from spyne.protocol.json import JsonDocument, JsonP
 from spyne.protocol.xml import XmlDocument
 from spyne.protocol.soap import Soap11
 from spyne.protocol.http import HttpRpc
@@ -110,6 +110,7 @@ def build(proto):
         'http-json': (HttpRpc(validator='soft'), JsonDocument()),
         'http-soap11': (HttpRpc(validator='soft'), Soap11()),
         'soap11-json': (Soap11(validator='soft'), JsonDocument()),
+        'json-jsonp': (JsonDocument(validator='soft'), JsonP('cb')),
     }[proto]
     app = Application([Svc, Sibling], 'tns', in_protocol=inp, out_protocol=outp)
     for ev in APP_EVENTS:
@@ -137,11 +138,11 @@ SOAP_ENV = 'http://schemas.xmlsoap.org/soap/envelope/'
 
 
 def in_of(proto):
-    return {'http-json': 'http', 'http-soap11': 'http', 'soap11-json': 'soap11'}.get(proto, proto)
+    return {'http-json': 'http', 'http-soap11': 'http', 'soap11-json': 'soap11', 'json-jsonp': 'json'}.get(proto, proto)
 
 
 def out_of(proto):
-    return {'http-json': 'json', 'http-soap11': 'soap11', 'soap11-json': 'json'}.get(proto, proto)
+    return {'http-json': 'json', 'http-soap11': 'soap11', 'soap11-json': 'json', 'json-jsonp': 'jsonp'}.get(proto, proto)
 
 
 def request_bytes(proto, kind):
@@ -185,7 +186,8 @@ def request_bytes(proto, kind):
 
 
 REQUEST_KINDS = ['valid', 'malformed', 'empty', 'wrong_root', 'unknown_method', 'invalid_arg', 'wrong_kind',
-                 'bad_utf8']
+                 'bad_utf8', 'too_long']
+MAX_LEN = 4096
 STAGE_FAILS = ['none', 'call_listener_fault', 'call_listener_exc', 'fn_fault', 'fn_fault_detail', 'fn_exc',
                'ret_listener_fault', 'ret_listener_exc', 'unserializable']
 LISTENER_LEVELS = ['appA', 'svc', 'meth']
@@ -230,7 +232,18 @@ def run_scenario(sx, proto, transport):
         BEHAVE['fn'] = 'exc'
     elif stage == 'unserializable':
         BEHAVE['fn'] = 'unserializable'
-    body, env = request_bytes(proto, req)
+    if req == 'too_long':
+        if transport == 'server' or in_of(proto) == 'http':
+            sx.outside('the request-size limit belongs to the WSGI transport (and form bodies need werkzeug, not installed)')
+        body, env = request_bytes(proto, 'valid')
+        pad = b' ' * (MAX_LEN + 1 - len(body))
+        body = body + pad
+        if in_of(proto) == 'http':
+            env['REQUEST_METHOD'] = 'POST'
+            env['CONTENT_TYPE'] = 'application/x-www-form-urlencoded'
+            body = b'a=5&s=' + b'x' * MAX_LEN
+    else:
+        body, env = request_bytes(proto, req)
     rec = Record()
     if transport == 'server':
         if in_of(proto) == 'http':
@@ -271,7 +284,7 @@ def _run_server(app, body, env, rec):
 
 def _run_wsgi(app, body, env, rec, chunked):
     import io
-    w = WsgiApplication(app, chunked=chunked)
+    w = WsgiApplication(app, chunked=chunked, max_content_length=MAX_LEN)
     for ev in WSGI_EVENTS:
         w.event_manager.add_listener(ev, _listener('wsgi', ev))
     app.event_manager.add_listener('method_context_closed', lambda ctx: rec.extra.setdefault('closed', []).append(
@@ -308,6 +321,10 @@ def parse_response(proto, body):
     """reference decoder of the response: ('fault', code, string, detail) | ('ok', value) | ('unparsed', body)"""
     proto = out_of(proto)
     try:
+        if proto == 'jsonp':
+            if not (body.startswith(b'cb(') and body.endswith(b');')):
+                return ('unparsed', body, 'not a cb(...) call')
+            body, proto = body[3:-2], 'json'
         if proto == 'json':
             d = _json.loads(body.decode('utf8'))
             if isinstance(d, dict) and 'faultcode' in d:
